@@ -38,7 +38,9 @@ COMPONENTS = {
              'ENOSPC on the n-th write'],
 }
 ENUMERATED_SPACE = ('all data-URL scripts of length <= 3 over {good, corrupt, http404} x checksum '
-                    '{correct, wrong, missing} x prior file {absent, valid, corrupt} = 351 scenarios')
+                    '{correct, wrong, missing} x prior file {absent, valid, corrupt} = 351 scenarios; '
+                    'thorough tier: additionally all scripts of length <= 3 over the 10 rich data '
+                    'response kinds x 7 checksum kinds x 3 prior states (22 959 more scenarios)')
 RULE = {'C20': (
     'quick first executes the statement\'s own space completely (' + ENUMERATED_SPACE + '), then '
     'seeded scenarios over the richer fault alphabet (truncated / extended / empty bodies, HTTP '
@@ -69,6 +71,8 @@ def _call(data, md5, head='fail', chunk=1024, disk=None):
 
 
 def enumerate_plans(prop, tier):
+    """quick: the statement's own space, completely. thorough: additionally every data script of
+    length <= 3 over the rich response alphabet x every checksum kind x prior state."""
     plans = []
     for prior in PRIORS:
         for md5 in MD5_BASIC:
@@ -77,6 +81,17 @@ def enumerate_plans(prop, tier):
                     plans.append({'engine': NAME,
                                   'cfg': {'prior': prior, 'body_len': 3000, 'body_seed': 1},
                                   'ops': [_call(script, [md5])]})
+    if tier == 'thorough':
+        md5_kinds = sorted(set(MD5_KINDS))
+        for prior in PRIORS:
+            for md5 in md5_kinds:
+                for n in (1, 2, 3):
+                    for script in itertools.product(DATA_KINDS, repeat=n):
+                        if set(script) <= set(DATA_BASIC) and md5 in MD5_BASIC:
+                            continue  # already in the basic part
+                        plans.append({'engine': NAME,
+                                      'cfg': {'prior': prior, 'body_len': 1500, 'body_seed': 2},
+                                      'ops': [_call(script, [md5], chunk=256)]})
     return plans
 
 
